@@ -218,35 +218,38 @@ match taken_1 with
   if (c_ =? "Kind::Get")%string then
     match args_ with
     | [a_8] => (let tried_9 := (gen_State_collect_header a_8 (v_field "channel_id" self_2) header) in
-match tried_9 with
-| VC "Err" [err_11] => (self_2, (VC "Err" [err_11]))
-| VC "Ok" [okval_10] =>
-let scrut_12 := okval_10 in
-(let next_13 := fun _ : unit =>
+let after_12 := fun okval_10 : val =>
+let scrut_13 := okval_10 in
 (let next_14 := fun _ : unit =>
+(let next_15 := fun _ : unit =>
 (self_2, VStuck) in
-match scrut_12 with
+match scrut_13 with
 | VC c_ args_ =>
   if (c_ =? "Content::NeedMore")%string then
     match args_ with
-    | [a_15] => let self_16 := (v_set "kind" (VC "Some" [(VC "Kind::Get" [a_15])]) self_2) in
-(self_16, (VC "Ok" [(VC "None" [])]))
+    | [a_16] => let self_17 := (v_set "kind" (VC "Some" [(VC "Kind::Get" [a_16])]) self_2) in
+(self_17, (VC "Ok" [(VC "None" [])]))
+    | _ => next_15 tt
+    end
+  else next_15 tt
+| _ => next_15 tt
+end) in
+match scrut_13 with
+| VC c_ args_ =>
+  if (c_ =? "Content::Done")%string then
+    match args_ with
+    | [a_18] => let self_19 := (v_set "kind" (VC "None" []) self_2) in
+(self_19, (VC "Ok" [(VC "Some" [(VC "CollectorResult::Get" [a_18])])]))
     | _ => next_14 tt
     end
   else next_14 tt
 | _ => next_14 tt
 end) in
-match scrut_12 with
-| VC c_ args_ =>
-  if (c_ =? "Content::Done")%string then
-    match args_ with
-    | [a_17] => let self_18 := (v_set "kind" (VC "None" []) self_2) in
-(self_18, (VC "Ok" [(VC "Some" [(VC "CollectorResult::Get" [a_17])])]))
-    | _ => next_13 tt
-    end
-  else next_13 tt
-| _ => next_13 tt
-end)
+match tried_9 with
+| VC "Err" [err_11] => (self_2, (VC "Err" [err_11]))
+| VC "Ok" [okval_10] => after_12 okval_10
+| VC "None" [] => (self_2, (VC "None" []))
+| VC "Some" [okval_10] => after_12 okval_10
 | _ => (self_2, VStuck)
 end)
     | _ => next_5 tt
@@ -263,40 +266,43 @@ match taken_1 with
 | VC c_ args_ =>
   if (c_ =? "Some")%string then
     match args_ with
-    | [a_19] => match a_19 with
+    | [a_20] => match a_20 with
 | VC c_ args_ =>
   if (c_ =? "Kind::Return")%string then
     match args_ with
-    | [a_20] => (let tried_21 := (gen_State_collect_header a_20 (v_field "channel_id" self_2) header) in
-match tried_21 with
-| VC "Err" [err_23] => (self_2, (VC "Err" [err_23]))
-| VC "Ok" [okval_22] =>
-let scrut_24 := okval_22 in
-(let next_25 := fun _ : unit =>
-(let next_26 := fun _ : unit =>
+    | [a_21] => (let tried_22 := (gen_State_collect_header a_21 (v_field "channel_id" self_2) header) in
+let after_25 := fun okval_23 : val =>
+let scrut_26 := okval_23 in
+(let next_27 := fun _ : unit =>
+(let next_28 := fun _ : unit =>
 (self_2, VStuck) in
-match scrut_24 with
+match scrut_26 with
 | VC c_ args_ =>
   if (c_ =? "Content::NeedMore")%string then
     match args_ with
-    | [a_27] => let self_28 := (v_set "kind" (VC "Some" [(VC "Kind::Return" [a_27])]) self_2) in
-(self_28, (VC "Ok" [(VC "None" [])]))
-    | _ => next_26 tt
+    | [a_29] => let self_30 := (v_set "kind" (VC "Some" [(VC "Kind::Return" [a_29])]) self_2) in
+(self_30, (VC "Ok" [(VC "None" [])]))
+    | _ => next_28 tt
     end
-  else next_26 tt
-| _ => next_26 tt
+  else next_28 tt
+| _ => next_28 tt
 end) in
-match scrut_24 with
+match scrut_26 with
 | VC c_ args_ =>
   if (c_ =? "Content::Done")%string then
     match args_ with
-    | [a_29] => let self_30 := (v_set "kind" (VC "None" []) self_2) in
-(self_30, (VC "Ok" [(VC "Some" [(VC "CollectorResult::Return" [a_29])])]))
-    | _ => next_25 tt
+    | [a_31] => let self_32 := (v_set "kind" (VC "None" []) self_2) in
+(self_32, (VC "Ok" [(VC "Some" [(VC "CollectorResult::Return" [a_31])])]))
+    | _ => next_27 tt
     end
-  else next_25 tt
-| _ => next_25 tt
-end)
+  else next_27 tt
+| _ => next_27 tt
+end) in
+match tried_22 with
+| VC "Err" [err_24] => (self_2, (VC "Err" [err_24]))
+| VC "Ok" [okval_23] => after_25 okval_23
+| VC "None" [] => (self_2, (VC "None" []))
+| VC "Some" [okval_23] => after_25 okval_23
 | _ => (self_2, VStuck)
 end)
     | _ => next_4 tt
@@ -313,49 +319,52 @@ match taken_1 with
 | VC c_ args_ =>
   if (c_ =? "Some")%string then
     match args_ with
-    | [a_31] => match a_31 with
+    | [a_33] => match a_33 with
 | VC c_ args_ =>
   if (c_ =? "Kind::Delivery")%string then
     match args_ with
-    | [a_32] => (let tried_33 := (gen_State_collect_header a_32 (v_field "channel_id" self_2) header) in
-match tried_33 with
-| VC "Err" [err_35] => (self_2, (VC "Err" [err_35]))
-| VC "Ok" [okval_34] =>
-let scrut_36 := okval_34 in
-(let next_37 := fun _ : unit =>
-(let next_38 := fun _ : unit =>
+    | [a_34] => (let tried_35 := (gen_State_collect_header a_34 (v_field "channel_id" self_2) header) in
+let after_38 := fun okval_36 : val =>
+let scrut_39 := okval_36 in
+(let next_40 := fun _ : unit =>
+(let next_41 := fun _ : unit =>
 (self_2, VStuck) in
-match scrut_36 with
+match scrut_39 with
 | VC c_ args_ =>
   if (c_ =? "Content::NeedMore")%string then
     match args_ with
-    | [a_39] => let self_40 := (v_set "kind" (VC "Some" [(VC "Kind::Delivery" [a_39])]) self_2) in
-(self_40, (VC "Ok" [(VC "None" [])]))
-    | _ => next_38 tt
+    | [a_42] => let self_43 := (v_set "kind" (VC "Some" [(VC "Kind::Delivery" [a_42])]) self_2) in
+(self_43, (VC "Ok" [(VC "None" [])]))
+    | _ => next_41 tt
     end
-  else next_38 tt
-| _ => next_38 tt
+  else next_41 tt
+| _ => next_41 tt
 end) in
-match scrut_36 with
+match scrut_39 with
 | VC c_ args_ =>
   if (c_ =? "Content::Done")%string then
     match args_ with
-    | [a_41] => match a_41 with
+    | [a_44] => match a_44 with
 | VC c_ args_ =>
   if (c_ =? "tuple")%string then
     match args_ with
-    | [a_42; a_43] => let self_44 := (v_set "kind" (VC "None" []) self_2) in
-(self_44, (VC "Ok" [(VC "Some" [(VC "CollectorResult::Delivery" [(VC "tuple" [a_42; a_43])])])]))
-    | _ => next_37 tt
+    | [a_45; a_46] => let self_47 := (v_set "kind" (VC "None" []) self_2) in
+(self_47, (VC "Ok" [(VC "Some" [(VC "CollectorResult::Delivery" [(VC "tuple" [a_45; a_46])])])]))
+    | _ => next_40 tt
     end
-  else next_37 tt
-| _ => next_37 tt
+  else next_40 tt
+| _ => next_40 tt
 end
-    | _ => next_37 tt
+    | _ => next_40 tt
     end
-  else next_37 tt
-| _ => next_37 tt
-end)
+  else next_40 tt
+| _ => next_40 tt
+end) in
+match tried_35 with
+| VC "Err" [err_37] => (self_2, (VC "Err" [err_37]))
+| VC "Ok" [okval_36] => after_38 okval_36
+| VC "None" [] => (self_2, (VC "None" []))
+| VC "Some" [okval_36] => after_38 okval_36
 | _ => (self_2, VStuck)
 end)
     | _ => next_3 tt
@@ -397,35 +406,38 @@ match taken_1 with
   if (c_ =? "Kind::Get")%string then
     match args_ with
     | [a_8] => (let tried_9 := (gen_State_collect_body a_8 (v_field "channel_id" self_2) body) in
-match tried_9 with
-| VC "Err" [err_11] => (self_2, (VC "Err" [err_11]))
-| VC "Ok" [okval_10] =>
-let scrut_12 := okval_10 in
-(let next_13 := fun _ : unit =>
+let after_12 := fun okval_10 : val =>
+let scrut_13 := okval_10 in
 (let next_14 := fun _ : unit =>
+(let next_15 := fun _ : unit =>
 (self_2, VStuck) in
-match scrut_12 with
+match scrut_13 with
 | VC c_ args_ =>
   if (c_ =? "Content::NeedMore")%string then
     match args_ with
-    | [a_15] => let self_16 := (v_set "kind" (VC "Some" [(VC "Kind::Get" [a_15])]) self_2) in
-(self_16, (VC "Ok" [(VC "None" [])]))
+    | [a_16] => let self_17 := (v_set "kind" (VC "Some" [(VC "Kind::Get" [a_16])]) self_2) in
+(self_17, (VC "Ok" [(VC "None" [])]))
+    | _ => next_15 tt
+    end
+  else next_15 tt
+| _ => next_15 tt
+end) in
+match scrut_13 with
+| VC c_ args_ =>
+  if (c_ =? "Content::Done")%string then
+    match args_ with
+    | [a_18] => let self_19 := (v_set "kind" (VC "None" []) self_2) in
+(self_19, (VC "Ok" [(VC "Some" [(VC "CollectorResult::Get" [a_18])])]))
     | _ => next_14 tt
     end
   else next_14 tt
 | _ => next_14 tt
 end) in
-match scrut_12 with
-| VC c_ args_ =>
-  if (c_ =? "Content::Done")%string then
-    match args_ with
-    | [a_17] => let self_18 := (v_set "kind" (VC "None" []) self_2) in
-(self_18, (VC "Ok" [(VC "Some" [(VC "CollectorResult::Get" [a_17])])]))
-    | _ => next_13 tt
-    end
-  else next_13 tt
-| _ => next_13 tt
-end)
+match tried_9 with
+| VC "Err" [err_11] => (self_2, (VC "Err" [err_11]))
+| VC "Ok" [okval_10] => after_12 okval_10
+| VC "None" [] => (self_2, (VC "None" []))
+| VC "Some" [okval_10] => after_12 okval_10
 | _ => (self_2, VStuck)
 end)
     | _ => next_5 tt
@@ -442,40 +454,43 @@ match taken_1 with
 | VC c_ args_ =>
   if (c_ =? "Some")%string then
     match args_ with
-    | [a_19] => match a_19 with
+    | [a_20] => match a_20 with
 | VC c_ args_ =>
   if (c_ =? "Kind::Return")%string then
     match args_ with
-    | [a_20] => (let tried_21 := (gen_State_collect_body a_20 (v_field "channel_id" self_2) body) in
-match tried_21 with
-| VC "Err" [err_23] => (self_2, (VC "Err" [err_23]))
-| VC "Ok" [okval_22] =>
-let scrut_24 := okval_22 in
-(let next_25 := fun _ : unit =>
-(let next_26 := fun _ : unit =>
+    | [a_21] => (let tried_22 := (gen_State_collect_body a_21 (v_field "channel_id" self_2) body) in
+let after_25 := fun okval_23 : val =>
+let scrut_26 := okval_23 in
+(let next_27 := fun _ : unit =>
+(let next_28 := fun _ : unit =>
 (self_2, VStuck) in
-match scrut_24 with
+match scrut_26 with
 | VC c_ args_ =>
   if (c_ =? "Content::NeedMore")%string then
     match args_ with
-    | [a_27] => let self_28 := (v_set "kind" (VC "Some" [(VC "Kind::Return" [a_27])]) self_2) in
-(self_28, (VC "Ok" [(VC "None" [])]))
-    | _ => next_26 tt
+    | [a_29] => let self_30 := (v_set "kind" (VC "Some" [(VC "Kind::Return" [a_29])]) self_2) in
+(self_30, (VC "Ok" [(VC "None" [])]))
+    | _ => next_28 tt
     end
-  else next_26 tt
-| _ => next_26 tt
+  else next_28 tt
+| _ => next_28 tt
 end) in
-match scrut_24 with
+match scrut_26 with
 | VC c_ args_ =>
   if (c_ =? "Content::Done")%string then
     match args_ with
-    | [a_29] => let self_30 := (v_set "kind" (VC "None" []) self_2) in
-(self_30, (VC "Ok" [(VC "Some" [(VC "CollectorResult::Return" [a_29])])]))
-    | _ => next_25 tt
+    | [a_31] => let self_32 := (v_set "kind" (VC "None" []) self_2) in
+(self_32, (VC "Ok" [(VC "Some" [(VC "CollectorResult::Return" [a_31])])]))
+    | _ => next_27 tt
     end
-  else next_25 tt
-| _ => next_25 tt
-end)
+  else next_27 tt
+| _ => next_27 tt
+end) in
+match tried_22 with
+| VC "Err" [err_24] => (self_2, (VC "Err" [err_24]))
+| VC "Ok" [okval_23] => after_25 okval_23
+| VC "None" [] => (self_2, (VC "None" []))
+| VC "Some" [okval_23] => after_25 okval_23
 | _ => (self_2, VStuck)
 end)
     | _ => next_4 tt
@@ -492,49 +507,52 @@ match taken_1 with
 | VC c_ args_ =>
   if (c_ =? "Some")%string then
     match args_ with
-    | [a_31] => match a_31 with
+    | [a_33] => match a_33 with
 | VC c_ args_ =>
   if (c_ =? "Kind::Delivery")%string then
     match args_ with
-    | [a_32] => (let tried_33 := (gen_State_collect_body a_32 (v_field "channel_id" self_2) body) in
-match tried_33 with
-| VC "Err" [err_35] => (self_2, (VC "Err" [err_35]))
-| VC "Ok" [okval_34] =>
-let scrut_36 := okval_34 in
-(let next_37 := fun _ : unit =>
-(let next_38 := fun _ : unit =>
+    | [a_34] => (let tried_35 := (gen_State_collect_body a_34 (v_field "channel_id" self_2) body) in
+let after_38 := fun okval_36 : val =>
+let scrut_39 := okval_36 in
+(let next_40 := fun _ : unit =>
+(let next_41 := fun _ : unit =>
 (self_2, VStuck) in
-match scrut_36 with
+match scrut_39 with
 | VC c_ args_ =>
   if (c_ =? "Content::NeedMore")%string then
     match args_ with
-    | [a_39] => let self_40 := (v_set "kind" (VC "Some" [(VC "Kind::Delivery" [a_39])]) self_2) in
-(self_40, (VC "Ok" [(VC "None" [])]))
-    | _ => next_38 tt
+    | [a_42] => let self_43 := (v_set "kind" (VC "Some" [(VC "Kind::Delivery" [a_42])]) self_2) in
+(self_43, (VC "Ok" [(VC "None" [])]))
+    | _ => next_41 tt
     end
-  else next_38 tt
-| _ => next_38 tt
+  else next_41 tt
+| _ => next_41 tt
 end) in
-match scrut_36 with
+match scrut_39 with
 | VC c_ args_ =>
   if (c_ =? "Content::Done")%string then
     match args_ with
-    | [a_41] => match a_41 with
+    | [a_44] => match a_44 with
 | VC c_ args_ =>
   if (c_ =? "tuple")%string then
     match args_ with
-    | [a_42; a_43] => let self_44 := (v_set "kind" (VC "None" []) self_2) in
-(self_44, (VC "Ok" [(VC "Some" [(VC "CollectorResult::Delivery" [(VC "tuple" [a_42; a_43])])])]))
-    | _ => next_37 tt
+    | [a_45; a_46] => let self_47 := (v_set "kind" (VC "None" []) self_2) in
+(self_47, (VC "Ok" [(VC "Some" [(VC "CollectorResult::Delivery" [(VC "tuple" [a_45; a_46])])])]))
+    | _ => next_40 tt
     end
-  else next_37 tt
-| _ => next_37 tt
+  else next_40 tt
+| _ => next_40 tt
 end
-    | _ => next_37 tt
+    | _ => next_40 tt
     end
-  else next_37 tt
-| _ => next_37 tt
-end)
+  else next_40 tt
+| _ => next_40 tt
+end) in
+match tried_35 with
+| VC "Err" [err_37] => (self_2, (VC "Err" [err_37]))
+| VC "Ok" [okval_36] => after_38 okval_36
+| VC "None" [] => (self_2, (VC "None" []))
+| VC "Some" [okval_36] => after_38 okval_36
 | _ => (self_2, VStuck)
 end)
     | _ => next_3 tt
